@@ -297,7 +297,15 @@ def handle (l : String) : String :=
       | none => "ok\tagree"
       | some w => if weakOK then "weak\tagree" else (w ++ "\tspec-ok")
   match op with
-  | "check" => finish 0 false false none none false
+  | "check" =>
+    -- concurrent tier: only the state clauses; a hole below a nonce the chain had already reached is the re-injection hole
+    let hi := ((arg "hi").splitOn ";").map nat!
+    match invFail k o with
+    | some w =>
+      let known := w.startsWith "run:" && (List.range k).any (fun a =>
+        !o.checkRun a && decide (o.cnonce a + (runFrom (o.cnonce a) (o.pending a).items).1.length < hi.getD a 0))
+      "spec\tspec-reject:" ++ (if known then "run-reinject-hole:" ++ strDrop w 4 else w)
+    | none => "ok\tagree"
   | "add" =>
     match parseTx (arg "tx") with
     | none => "bad-op\tagree"
